@@ -100,6 +100,15 @@ MUTANTS = {
     "keys_first_only": ("dependent.py", "        return list(self.parameters)", "        return [self.parameter]", ["C10", "C11"]),
     "overlap_keeps_table": ("recode.py", "                    elif disjoint:\n                        keyexpr", "                    elif True:\n                        keyexpr", ["C10", "C11"]),
     "conj_drops_second": ("recode.py", '        conj = " and ".join(codes)', '        conj = " and ".join(codes[:1])', ["C10", "C01"]),
+    # ---- C15
+    "annotated_not_unwrapped": ("types.py", "        elif isinstance(t, typing._AnnotatedAlias):\n            t = t.__origin__\n", "", ["C15"]),
+    "tuple_members_reversed_no_norm": ("types.py", "            return Union[tuple(self(t2, fn) for t2 in t)]", "            return Union[tuple(reversed(t))]", ["C15"]),
+    "any_not_object": ("types.py", "        elif t is typing.Any:\n            t = object\n", "", ["C15"]),
+    "union_eq_ordered": ("types.py", "        return set(self.__args__) == set(other.__args__)\n\n    def __hash__(self):\n        return hash(frozenset(self.__args__))\n\n    def __str__(self):\n        return \" | \"",
+                         "        return self.__args__ == other.__args__\n\n    def __hash__(self):\n        return hash(self.__args__)\n\n    def __str__(self):\n        return \" | \"", ["C15"]),
+    "string_ann_builtins_only": ("types.py", '            t = eval(t, getattr(fn, "__globals__", {}))', '            t = eval(t, {})', ["C15"]),
+    "pipe_union_first_member": ("types.py", "            return self(t.__args__, fn)\n        elif origin is type:", "            return self(t.__args__[:1], fn)\n        elif origin is type:", ["C15"]),
+    "literal_bound_first": ("dependent.py", "        if len(types) == 1:\n            return types[0]", "        if True:\n            return types[0]", ["C15", "C11"]),
     # ---- C17
     "ext_first_base_only": ("core.py", "                for other in others:\n                    prev.add_mixins(other)\n", "", ["C17"]),
     "ext_no_copy": ("core.py", "                prev = prev.copy()\n                for other in others:", "                for other in others:", ["C17"]),
